@@ -1,5 +1,6 @@
 import ServlinVerif.Driver.C14
 import ServlinVerif.Driver.C20
+import ServlinVerif.Driver.C05
 import ServlinVerif.Driver.C17
 import ServlinVerif.Driver.C15
 import ServlinVerif.Driver.C06
@@ -38,6 +39,7 @@ def handleLine (line : String) : String :=
     | "c01s" => Req.handleSeq args obs
     | "c02" => Req.handleC02 args obs
     | "c03" => Req.handleC03 args obs
+    | "c05" => C05.handle args obs
     | "c06" => C06.handleC06 args obs
     | "c08" => C06.handleC08 args obs
     | "c07" => C07.handle args obs
